@@ -196,6 +196,21 @@ Theorem C19_text_to_table_regular : forall code s, wf_stable s = true ->
             recognize_plane parse_hp parse_num p = Some (AsRow, hp, length (s_rules s), fields_of (abs_table code s)).
 Proof. exact text_to_table. Qed.
 
+(* TOTALITY of the characters -> plane model (C19/CanvasTotal.v): for EVERY text (any code points: no picture, several pictures, broken
+   frames, ragged lines) `canvas_cplane` is Ok or Err, never Panic - Panic being the model's value for an index out of bounds, an
+   ill-formed slice or a usize underflow at the points where canvas.rs indexes.  Invariant: the layers are h x w rectangles (or the
+   one-line canvas of a text without a picture), every point returned by a search lies inside, every rectangle closed by a walk has its
+   text area inside, the passes that rewrite layers keep their shape.  The second form is the same for any rectangular grid given to
+   the passes directly (not only the grids `scan_layers` makes) *)
+From DV Require Import C19.CanvasTotal.
+
+Theorem C19_canvas_total : forall text, canvas_cplane text <> Panic.
+Proof. exact canvas_total. Qed.
+
+Theorem C19_canvas_total_grid : forall h w txt blank, 0 < h -> 0 < w -> rectl h w txt -> rectl h w blank ->
+  (cv <- scan_from txt blank ;; p <- plane_of cv ;; Ok (cv_name cv, p)) <> Panic.
+Proof. exact canvas_total_grid. Qed.
+
 (* the hypotheses of the two general theorems are met by a non-trivial table; the two sweeps of C19/CanvasSweep.v (81 shapes, vm_compute,
    formerly the bounded `_partial` theorems, now subsumed) are kept there as an independent computation of the same statements *)
 Example C19_canvas_nonvacuous :
@@ -214,4 +229,6 @@ Print Assumptions C19_scan_layers_regular.
 Print Assumptions C19_draw_roundtrip_regular.
 Print Assumptions C19_recognize_plane_names_erased.
 Print Assumptions C19_text_to_table_regular.
+Print Assumptions C19_canvas_total.
+Print Assumptions C19_canvas_total_grid.
 Print Assumptions C19_canvas_nonvacuous.
